@@ -64,6 +64,7 @@ type State struct {
 	useOld   bool
 	steps    int
 	freshErrs []string
+	frontier string
 	isAxiom  map[int]bool
 	conds    map[string]bool   // branch conditions already decided on this path
 	eqNum    map[string]string // terms known equal to a numeral
